@@ -183,29 +183,40 @@ def fp_diff(a, b):
 _server = None
 
 
-def reference(calls, nofork=False):
-    global _server
-    if _server is None or _server.poll() is not None:
-        env = dict(os.environ, PYTHONHASHSEED='0', PYTHONDONTWRITEBYTECODE='1', VERIF_REPO=REPO)
-        _server = subprocess.Popen([sys.executable, os.path.join(VERIF, 'vf', 'refserver.py')], stdin=subprocess.PIPE,
-                                   stdout=subprocess.PIPE, env=env)
-    _server.stdin.write((json.dumps({'nofork': calls} if nofork else calls) + '\n').encode('utf-8'))
-    _server.stdin.flush()
-    line = _server.stdout.readline()
+_server_rev = None
+
+
+def reference(calls, nofork=False, reverse=False):
+    """Results of the calls in a pristine process; ``reverse``: the reference that loaded the grammars in the opposite order."""
+    global _server, _server_rev
+    srv = _server_rev if reverse else _server
+    if srv is None or srv.poll() is not None:
+        env = dict(os.environ, PYTHONHASHSEED='0', PYTHONDONTWRITEBYTECODE='1', VERIF_REPO=REPO,
+                   VERIF_REF_ORDER='reverse' if reverse else 'canonical')
+        srv = subprocess.Popen([sys.executable, os.path.join(VERIF, 'vf', 'refserver.py')], stdin=subprocess.PIPE,
+                               stdout=subprocess.PIPE, env=env)
+        if reverse:
+            _server_rev = srv
+        else:
+            _server = srv
+    srv.stdin.write((json.dumps({'nofork': calls} if nofork else calls) + '\n').encode('utf-8'))
+    srv.stdin.flush()
+    line = srv.stdout.readline()
     if not line:
         raise RuntimeError('reference server died')
     return json.loads(line.decode('utf-8'))
 
 
 def close_server():
-    global _server
-    if _server is not None:
-        try:
-            _server.stdin.close()
-            _server.wait(timeout=5)
-        except Exception:
-            _server.kill()
-        _server = None
+    global _server, _server_rev
+    for srv in (_server, _server_rev):
+        if srv is not None:
+            try:
+                srv.stdin.close()
+                srv.wait(timeout=5)
+            except Exception:
+                srv.kill()
+    _server = _server_rev = None
 
 
 def norm(x):
@@ -253,6 +264,14 @@ class C18(Prop):
             kinds = st.just('all') if light else st.sampled_from(KINDS)      # 'all': every kind of call on the text
             txt = st.one_of(lit_text, lit_text, text) if light else text
             calls = [[draw(kinds), draw(st.sampled_from(vs)), draw(txt)] for _ in range(n)]
+            if light and draw(st.integers(0, 3)) == 0:
+                # the same text through the two grammar versions around a version guard, in either order (grammars with identical
+                # grammar files - 3.10/3.11, 3.13/3.14 - differ in nothing but such guards)
+                e = draw(T.version_sensitive())
+                pair = list(e['versions']) if draw(st.booleans()) else list(reversed(e['versions']))
+                return {'calls': [['all', v_, e['text'] + '\n'] for v_ in pair + pair[:draw(st.integers(0, 1))]], 'light': True,
+                        'pristine': True, 'fresh_grammars': draw(st.integers(0, 2)) == 0, 'stress': False, 'cold': None, 'schedule': [1],
+                        'both_refs': True}
             # sibling calls: a later call gets (a small variant of) an earlier call's text - what a process-wide memo keyed
             # too coarsely (by text but not version / kind of literal / kind of call) needs in order to answer wrongly
             for i in range(1, n):
@@ -303,8 +322,24 @@ class C18(Prop):
         if case.get('light'):
             # only the last call of a light history is judged: first against a process that has not seen the earlier calls
             # (cheap, no fork), and a difference is confirmed against the forking pristine server
-            last = norm(reference(calls[-1:], nofork=True)[0])
-            ref = r1 if last == r1[-1] else [norm(x) for x in reference(calls)]
+            # (half of the cases ask the reference that loaded the grammars in the opposite order: a result that depends on the
+            # loading order then differs from one of the two references whatever the order in this process was)
+            rev = digest(calls)[0] % 2 == 1
+            if case.get('both_refs'):
+                # version-guard cases: every call against both references
+                classes.append('version-guard-text-through-both-neighbouring-versions')
+                ref = r1
+                for rv in (False, True):
+                    cheap = [norm(x) for x in reference(calls, nofork=True, reverse=rv)]
+                    if cheap != r1:
+                        ref = [norm(x) for x in reference(calls, reverse=rv)]
+                        if ref != r1:
+                            break
+            else:
+                last = norm(reference(calls[-1:], nofork=True, reverse=rev)[0])
+                ref = r1 if last == r1[-1] else [norm(x) for x in reference(calls, reverse=rev)]
+            if rev:
+                classes.append('reference-with-reverse-loading-order')
         else:
             ref = reference(calls) if case.get('pristine', True) else r1
         if case.get('pristine', True):
